@@ -251,7 +251,7 @@ class Minimiser(object):
     def fails(self, case):
         self.execs += 1
         try:
-            v = execute_case(self.sim, case, Stats(collect=False))
+            v = run_one(self.sim, case, Stats(collect=False))
         except HarnessError:
             return False
         return v is not None and v.klass() == self.klass
@@ -320,6 +320,40 @@ class Minimiser(object):
         self.shrink_arguments()
         self.one_by_one()
         return self.case
+
+
+REPO_URAL = None  # realpath of the ural package under test, set by the driver
+
+
+def classify_exception(exc):
+    """An exception escaping from ural code is the system misbehaving (a
+    violation); one raised by the harness itself is a harness error."""
+    import os
+    import traceback
+
+    tb = traceback.extract_tb(exc.__traceback__)
+    frames = [f for f in tb if REPO_URAL and os.path.abspath(f.filename).startswith(REPO_URAL)]
+    if not frames:
+        return None
+    last = frames[-1]
+    where = "%s:%s" % (os.path.relpath(last.filename, REPO_URAL), last.name)
+    return Violation("unexpected_exception", type(exc).__name__, r(str(exc)), "no exception", {"where": where})
+
+
+def run_one(sim, case, stats):
+    """execute_case + classification of exceptions escaping from the system."""
+    try:
+        return execute_case(sim, case, stats)
+    except HarnessError:
+        raise
+    except RecursionError:
+        raise
+    except Exception as exc:  # noqa
+        v = classify_exception(exc)
+        if v is None:
+            raise
+        v.seq = stats.seq
+        return v
 
 
 def execute_case(sim, case, stats):
